@@ -18,14 +18,31 @@ CHECK = {'level': 'exploration',
          'Non-trivial = (timed gater) an IP crossed the threshold by accumulation, was queried while certainly banned and again '
          'after the ban was seen over; (untimed gater) crossed by accumulation and queried while banned; (end-to-end) a ban caused by traffic with a '
          'refused dial during the ban and an accepted one after it, or a legal-only scenario that filled a rate window exactly; (concurrent) >= 2 '
-         'racing penalties reaching the threshold. Distinct by digest of the concrete operation list',
+         'racing penalties reaching the threshold. Distinct by digest of the concrete operation list. '
+         '(c) INVALID SYNC REQUESTS against the REAL sync handlers (TestSyncRequests, TestRegressSyncRequests): the penalising side is a real consensus '
+         'node (harness/node: Executer + consensus/sync Syncer over an in-memory chain of 1-6 blocks, started p2p.Connection on which Executer.Init '
+         'registered getLastBlock, getHighestCommonBlock, getBlocksFromId), the requesters are plain started p2p.Connections on their own loopback IPs '
+         '(127.0.20+.x) using RequestFrom. 4-10 requests per scenario, 10 scenarios in parallel per rapid case: getHighestCommonBlock with nil data, '
+         'undecodable data (7 garbage families, classified with the real decoder), an empty list, only malformed IDs, lists MIXING well-formed (on-chain / '
+         'unknown) and malformed IDs with the first malformed ID at the first / a middle / the last position, ID lengths 0/1/16/20/31/33/64 (random bytes '
+         'or a real block ID cut short / extended), one malformed ID in a list of 110-400, and as valid requests known / unknown / mixed / duplicate IDs and '
+         'lists of 110-500 IDs; getBlocksFromId with nil, undecodable, ID of a wrong length, known ID, tip, unknown well-formed ID; getLastBlock plain '
+         '(with a payload: sent, nothing asserted); requesters are reused while clean, one in four carries a partial score (ApplyPenalty 1-60 by the node) '
+         'before the request. Oracle = the rule the handlers document (restated in the harness): getHighestCommonBlock invalid iff no data, undecodable, no '
+         'ID, or ANY ID whose length is not 32; getBlocksFromId invalid iff no data, undecodable or ID length not 32; getLastBlock never. Invalid: the node '
+         'must store score >= threshold for the sender IP, list it, disconnect the peer, refuse its re-dial and refuse its own dial towards it (ban model '
+         'zones); one scenario in four uses a 1-2 s expiry and ends with the ban awaited, the peer accepted again, served, clean score, small penalty exact. '
+         'Valid: score unchanged (exactly the partial score), still connected, not listed, and the node earns no score at the requester. Non-trivial (sync) '
+         '= a ban by an invalid request with a certain refusal in both directions plus a valid request that left its sender clean in the same scenario, '
+         'or a full ban life cycle',
  'level_text': 'Model-based property test of the penalty/ban logic: the real gater and real loopback connections are driven by generated histories '
                'and compared after every step with a ban model with tolerance windows (banned from the crossing call until at least expiry, at most '
                'expiry + 1 s + sweep + 3 s slack; exact outside the window, either answer inside, first "accepted" ends the ban; score restarts from '
                'zero). Sampled, wall clock real.',
  'level_note': 'Production constants (24 h ban, 10 s sweep, 10 s rate window) are shortened through the verif hook: the logic, not the constants, is '
-               'tested. Whole-second expiries only (the engine keeps unix seconds). Malformed *sync* requests are represented by a handler that calls '
-               'BanPeer/ApplyPenalty like the sync handlers do; the real sync handlers need a consensus node and are not driven here.',
+               'tested. Whole-second expiries only (the engine keeps unix seconds). Invalid sync requests are sent to the real sync handlers of a harness consensus node (part c); the '
+               'end-to-end scenarios of part b use a stand-in handler that calls BanPeer/ApplyPenalty. Whether a request is invalid follows the rule the '
+               'handlers document (any malformed block ID makes a getHighestCommonBlock request invalid); undecodable data is classified with the engine decoder.',
  'technique': 'property-based / model-based testing (rapid) with tolerance windows; end-to-end scenarios on loopback',
  'assumptions': ['an IPv4-mapped IPv6 address is the same IP as the IPv4 address',
                  'per gate refusal: InterceptAddrDial (outbound), InterceptAccept and InterceptSecured(inbound) must each refuse a banned/blacklisted IP',
@@ -38,8 +55,10 @@ CHECK = {'level': 'exploration',
                  'a "ban should be over by now" verdict is final only if it persists over 600 further process heartbeats (>= 3 s)'],
  'quick': [{'pkg': 'c18', 'run': 'TestGaterUntimed|TestGaterConcurrent|TestRegress', 'checks': 3000, 'timeout': 600},
            {'pkg': 'c18', 'run': 'TestGaterTimed', 'checks': 6, 'shrinktime': '10s', 'timeout': 600},
-           {'pkg': 'c18', 'run': 'TestE2E', 'checks': 5, 'shrinktime': '10s', 'timeout': 600}],
- 'replay': [{'pkg': 'c18', 'run': 'TestGaterUntimed|TestGaterTimed|TestGaterConcurrent|TestE2E', 'checks': 1, 'timeout': 900}],
+           {'pkg': 'c18', 'run': 'TestE2E', 'checks': 5, 'shrinktime': '10s', 'timeout': 600},
+           {'pkg': 'c18', 'run': 'TestSyncRequests', 'checks': 6, 'shrinktime': '10s', 'timeout': 600}],
+ 'replay': [{'pkg': 'c18', 'run': 'TestGaterUntimed|TestGaterTimed|TestGaterConcurrent|TestE2E|TestSyncRequests', 'checks': 1, 'timeout': 900}],
  'thorough': [{'pkg': 'c18', 'run': 'TestGaterUntimed|TestGaterConcurrent|TestRegress', 'checks': 25000, 'shards': 4, 'timeout': 1500},
               {'pkg': 'c18', 'run': 'TestGaterTimed', 'checks': 60, 'shards': 6, 'gomaxprocs': 3, 'shrinktime': '10s', 'timeout': 1500},
-              {'pkg': 'c18', 'run': 'TestE2E', 'checks': 40, 'shards': 6, 'gomaxprocs': 4, 'shrinktime': '10s', 'timeout': 1500}]}
+              {'pkg': 'c18', 'run': 'TestE2E', 'checks': 40, 'shards': 6, 'gomaxprocs': 4, 'shrinktime': '10s', 'timeout': 1500},
+              {'pkg': 'c18', 'run': 'TestSyncRequests', 'checks': 40, 'shards': 4, 'gomaxprocs': 4, 'shrinktime': '10s', 'timeout': 1500}]}
